@@ -98,9 +98,11 @@ def stdlib_table():
             "collections": {"defaultdict": m_defaultdict, "deque": m_deque, "Counter": m_counter, "OrderedDict": dict, "namedtuple": __import__("cgstatic.userclass", fromlist=["x"]).namedtuple_factory,
                             "ChainMap": (lambda *maps: {k: v for m_ in reversed(maps) for k, v in m_.items()})},
             "typing": {n: object for n in ("Any", "Optional", "Iterable", "Iterator", "Sequence", "Mapping", "Dict", "List", "Set", "Tuple", "Callable", "Union", "FrozenSet", "Generator", "Hashable", "ClassVar", "Final")},
-            "dataclasses": {"field": __import__("cgstatic.userclass", fromlist=["x"]).dataclass_field, "dataclass": (lambda *a, **k: (a[0] if a else (lambda c: c))), "replace": m_dataclass_replace,
+            "dataclasses": {"field": __import__("cgstatic.userclass", fromlist=["x"]).dataclass_field, "dataclass": (lambda *a, **k: (a[0] if a else (lambda c: c))), "replace": m_dataclass_replace, "InitVar": object, "KW_ONLY": object,
                             "astuple": (lambda o: o._uc_tuple()), "asdict": (lambda o: {f[0]: getattr(o, f[0]) for f in o._uc_class._uc_fields})},
-            "operator": {n: getattr(operator, n) for n in ("itemgetter", "attrgetter", "methodcaller", "or_", "and_", "xor", "not_", "add", "sub", "mul", "eq", "ne", "lt", "le", "gt", "ge", "contains", "getitem", "truth", "is_", "is_not", "neg")},
+            "operator": {n: getattr(operator, n) for n in ("itemgetter", "attrgetter", "methodcaller", "or_", "and_", "xor", "not_", "add", "sub", "mul", "eq", "ne", "lt", "le", "gt", "ge", "contains", "getitem", "truth", "is_", "is_not", "neg",
+                                                                    "ior", "iand", "ixor", "iadd", "isub", "imul", "concat", "iconcat", "floordiv", "mod", "truediv", "pow", "lshift", "rshift", "inv", "invert", "index",
+                                                                    "countOf", "indexOf", "setitem", "delitem", "abs", "pos")},
             "queue": {"Queue": MQueue},
             "io": {"StringIO": MStringIO},
             "weakref": {"WeakKeyDictionary": dict, "WeakValueDictionary": dict, "WeakSet": set},
@@ -357,7 +359,9 @@ def m_dataclass_replace(obj, **changes):
         raise ModelRaise("TypeError", "replace() should be called on dataclass instances")
     cls = obj._uc_class
     d = object.__getattribute__(obj, "__dict__")
-    vals = {f[0]: d[f[0]] for f in cls._uc_fields}
+    from .userclass import FieldSpec
+
+    vals = {f[0]: d[f[0]] for f in cls._uc_fields if not (isinstance(f[1], FieldSpec) and not f[1].init)}
     vals.update(changes)
     return cls(**vals)
 
@@ -668,15 +672,58 @@ class RepoInstance(Model):
         return self is other
 
 
-def repo_class(pkg, rel, cls):
-    def construct(*a, **k):
-        inst = RepoInstance(pkg, rel, cls)
-        if (rel, f"{cls}.__init__") in pkg.repo.funcs:
+def repo_class_attr(pkg, rel, cls, name, clsref):
+    """`Cls.name` read on a class of the repository itself (not on an instance): a static method, a class method bound to the
+    class, a plain method as a function taking the object first, or a class-level constant."""
+    key = (rel, f"{cls}.{name}")
+    if key in pkg.repo.funcs:
+        fdef = pkg.repo.funcs[key].node
+        decs = {ast.unparse(d).split(".")[-1].split("(")[0] for d in fdef.decorator_list}
+        if decs - {"staticmethod", "classmethod", "lru_cache", "cache", "abstractmethod", "override", "final"}:
+            raise Unsupported(f"class-level access to {cls}.{name} decorated with {sorted(decs)}")
+        clo = pkg.method_closure(rel, f"{cls}.{name}")
+        if "classmethod" in decs:
+            return lambda *a, **k: clo(clsref, *a, **k)
+        return clo
+    cdef = pkg.repo.classes.get((rel, cls))
+    for st in (cdef.body if cdef is not None else ()):
+        tgt = st.targets[0] if isinstance(st, ast.Assign) and len(st.targets) == 1 else st.target if isinstance(st, ast.AnnAssign) and st.value is not None else None
+        if isinstance(tgt, ast.Name) and tgt.id == name:
+            from .minieval import MiniEval
+
+            return MiniEval(pkg.env(rel)).ev(st.value)
+    for b in (cdef.bases if cdef is not None else ()):
+        bn = ast.unparse(b).split(".")[-1]
+        if (rel, bn) in pkg.repo.classes:
+            return repo_class_attr(pkg, rel, bn, name, clsref)
+    raise Unsupported(f"class {cls} has no class-level attribute {name} the evaluator can read")
+
+
+class RepoClassRef:
+    """The repository's class as a value: calling it constructs an instance, `Cls.helper` reads a class-level attribute."""
+
+    def __init__(self, pkg, rel, cls):
+        self._pkg, self._rel, self._cls = pkg, rel, cls
+        self.__name__ = self.__qualname__ = cls
+
+    def __call__(self, *a, **k):
+        inst = RepoInstance(self._pkg, self._rel, self._cls)
+        if (self._rel, f"{self._cls}.__init__") in self._pkg.repo.funcs:
             inst.__getattr__("__init__")(*a, **k)
         return inst
 
-    construct.__name__ = cls
-    return construct
+    def _cg_class_attr(self, name):
+        return repo_class_attr(self._pkg, self._rel, self._cls, name, self)
+
+    def __repr__(self):
+        return f"<class {self._cls}>"
+
+
+def repo_class(pkg, rel, cls):
+    key = ("_class_ref", rel, cls)
+    if key not in pkg._method_closures:
+        pkg._method_closures[key] = RepoClassRef(pkg, rel, cls)
+    return pkg._method_closures[key]
 
 
 class Package:
@@ -734,6 +781,13 @@ class Package:
             bi.me.env = env
             self._method_closures[key] = bi.make_closure(self.repo.func(rel, qual).node)
         return self._method_closures[key]
+
+    def class_level_attr(self, model_cls, name):
+        """`Circuit._helper` read on the reference model's class: the repository's own class-level attribute of that name."""
+        cls = getattr(model_cls, "_repo_class", None)
+        if cls is None:
+            raise Unsupported(f"class-level attribute {name} of {model_cls.__name__}")
+        return repo_class_attr(self, "circuit.py", cls, name, model_cls)
 
     def bound_repo_method(self, obj, name):
         """A method that circuit.py's class defines although the reference model lacks it, bound to the model object."""
@@ -844,7 +898,14 @@ class Package:
                 try:
                     build_class(st, bi)
                 except Unsupported as e:
-                    raise Unsupported(f"class {st.name} (with class keywords) cannot be evaluated: {e}")
+                    why = [str(e)]
+                    for other in tree.body:  # the root cause is usually a base class that could not be built itself
+                        if isinstance(other, ast.ClassDef) and other.name not in env and other is not st and other.name in str(e):
+                            try:
+                                build_class(other, bi)
+                            except Unsupported as e2:
+                                why.append(f"{other.name}: {e2}")
+                    raise Unsupported(f"class {st.name} (with class keywords) cannot be evaluated: {'; '.join(why)}")
         self._bi = bi
         return env
 
